@@ -13,7 +13,10 @@ All statements are about the **generated** definitions `Gen.F2C1.*`, `Gen.F2CRes
 * `one_point_is_position_r1/_r2` : `total_x, total_y, total_z` are the Cartesian components of
   `r₀ + X n + Y b (+ Z t)`, where `r₀ = (R0 cos φ0, R0 sin φ0, z0)` and the Cartesian components of `n, b, t` are
   obtained from the cylindrical ones by the rotation by `φ0` (`cartX`, `cartY`); `total_R = sqrt(total_x² + total_y²)`;
-  the Z-term is present only for order ≠ r1 (`_r2` is the branch `order != 'r1'`).  Pure algebra, any commutative ring.
+  the Z-term is present only for order ≠ r1 (`_r2` is the branch `order != 'r1'`).  Pure algebra, any commutative ring
+  in which `hcs : ∀ x, cos x ^ 2 + sin x ^ 2 = 1` (true of the real functions; needed only for the `total_R` clause when
+  the source takes the length of the same vector in the rotated basis `(e_R, e_φ)`; the proofs do not depend on which
+  of the two spellings the source uses).
 * `one_point_polar_r1/_r2` : at `ℝ`, with `o.sqrt = Real.sqrt`, `o.cos = Real.cos`, `o.sin = Real.sin`, and assuming
   that `total_phi` is *a* polar angle of `(total_x, total_y)` (hypothesis `hpolar`; this is ALL that is assumed of
   `atan2`): `total_R cos(total_phi) = total_x`, `total_R sin(total_phi) = total_y`.
@@ -33,6 +36,11 @@ All statements are about the **generated** definitions `Gen.F2C1.*`, `Gen.F2CRes
 -/
 namespace C14
 set_option maxHeartbeats 1000000
+-- the proofs carry fallbacks for re-spellings of the source; on a given tree some of them are not executed
+set_option linter.unnecessarySeqFocus false
+set_option linter.unusedTactic false
+set_option linter.unreachableTactic false
+set_option linter.unusedVariables false
 
 section Algebra
 variable {K : Type} [CommRing K]
@@ -44,7 +52,8 @@ def cartX (c s vR vphi : K) : K := vR * c - vphi * s
 def cartY (c s vR vphi : K) : K := vR * s + vphi * c
 
 /-- order r1: `total_{x,y,z}` are the Cartesian components of `r₀ + X n + Y b`; `total_R` is the cylindrical radius -/
-theorem one_point_is_position_r1 (o : Ops K) (i : Gen.F2C1.In K) :
+theorem one_point_is_position_r1 (o : Ops K) (i : Gen.F2C1.In K)
+    (hcs : ∀ x, o.cos x ^ 2 + o.sin x ^ 2 = 1) :
     let S := fun nm => o.spline nm i.phi0
     let c := o.cos i.phi0
     let s := o.sin i.phi0
@@ -57,10 +66,24 @@ theorem one_point_is_position_r1 (o : Ops K) (i : Gen.F2C1.In K) :
         + Gen.F2C1.total_y_r1 o i * Gen.F2C1.total_y_r1 o i) ∧
     Gen.F2C1.total_phi_r1 o i = o.atan2 (Gen.F2C1.total_y_r1 o i) (Gen.F2C1.total_x_r1 o i) := by
   intro S c s
-  refine ⟨?_, ?_, ?_, ?_, ?_⟩ <;> qsc_rfl [S, c, s, cartX, cartY]
+  refine ⟨?_, ?_, ?_, ?_, ?_⟩
+  · qsc_rfl [S, c, s, cartX, cartY]
+  · qsc_rfl [S, c, s, cartX, cartY]
+  · qsc_rfl [S, c, s, cartX, cartY]
+  · -- the radicand is `x² + y²` up to ring normalisation, or the squared length `eR² + eφ²` of the same vector in
+    -- the rotated basis (equal through `cos² + sin² = 1`)
+    first
+      | rfl
+      | (simp only [qsc_gen] <;> congr 1 <;> first
+          | ring1
+          | linear_combination
+              (-((S "R0_func" + S "X_spline" * S "normal_R_spline" + S "Y_spline" * S "binormal_R_spline") ^ 2
+                + (S "X_spline" * S "normal_phi_spline" + S "Y_spline" * S "binormal_phi_spline") ^ 2)) * hcs i.phi0)
+  · qsc_rfl
 
 /-- order ≠ r1: `total_{x,y,z}` are the Cartesian components of `r₀ + X n + Y b + Z t` -/
-theorem one_point_is_position_r2 (o : Ops K) (i : Gen.F2C1.In K) :
+theorem one_point_is_position_r2 (o : Ops K) (i : Gen.F2C1.In K)
+    (hcs : ∀ x, o.cos x ^ 2 + o.sin x ^ 2 = 1) :
     let S := fun nm => o.spline nm i.phi0
     let c := o.cos i.phi0
     let s := o.sin i.phi0
@@ -76,7 +99,20 @@ theorem one_point_is_position_r2 (o : Ops K) (i : Gen.F2C1.In K) :
         + Gen.F2C1.total_y_r2 o i * Gen.F2C1.total_y_r2 o i) ∧
     Gen.F2C1.total_phi_r2 o i = o.atan2 (Gen.F2C1.total_y_r2 o i) (Gen.F2C1.total_x_r2 o i) := by
   intro S c s
-  refine ⟨?_, ?_, ?_, ?_, ?_⟩ <;> qsc_rfl [S, c, s, cartX, cartY]
+  refine ⟨?_, ?_, ?_, ?_, ?_⟩
+  · qsc_rfl [S, c, s, cartX, cartY]
+  · qsc_rfl [S, c, s, cartX, cartY]
+  · qsc_rfl [S, c, s, cartX, cartY]
+  · first
+      | rfl
+      | (simp only [qsc_gen] <;> congr 1 <;> first
+          | ring1
+          | linear_combination
+              (-((S "R0_func" + S "X_spline" * S "normal_R_spline" + S "Y_spline" * S "binormal_R_spline"
+                    + S "Z_spline" * S "tangent_R_spline") ^ 2
+                + (S "X_spline" * S "normal_phi_spline" + S "Y_spline" * S "binormal_phi_spline"
+                    + S "Z_spline" * S "tangent_phi_spline") ^ 2)) * hcs i.phi0)
+  · qsc_rfl
 
 /-- the rotation preserves the horizontal length: `x² + y² = vR² + vphi²` when `c² + s² = 1` -/
 theorem cart_norm (c s vR vphi : K) (h : c * c + s * s = 1) :
@@ -104,8 +140,10 @@ theorem one_point_polar_r1 (o : Ops ℝ) (i : Gen.F2C1.In ℝ) (ρ : ℝ)
     Gen.F2C1.total_R_r1 o i * o.cos (Gen.F2C1.total_phi_r1 o i) = Gen.F2C1.total_x_r1 o i ∧
     Gen.F2C1.total_R_r1 o i * o.sin (Gen.F2C1.total_phi_r1 o i) = Gen.F2C1.total_y_r1 o i := by
   obtain ⟨hx, hy, hρ⟩ := hpolar
+  have hcs : ∀ x, o.cos x ^ 2 + o.sin x ^ 2 = 1 := by
+    intro x; rw [hcos, hsin]; exact Real.cos_sq_add_sin_sq x
   have hR : Gen.F2C1.total_R_r1 o i = ρ := by
-    rw [Gen.F2C1.total_R_r1, hsqrt]; exact sqrt_polar hx hy hρ
+    rw [(one_point_is_position_r1 o i hcs).2.2.2.1, hsqrt]; exact sqrt_polar hx hy hρ
   rw [hR, hcos, hsin]
   exact ⟨hx.symm, hy.symm⟩
 
@@ -116,8 +154,10 @@ theorem one_point_polar_r2 (o : Ops ℝ) (i : Gen.F2C1.In ℝ) (ρ : ℝ)
     Gen.F2C1.total_R_r2 o i * o.cos (Gen.F2C1.total_phi_r2 o i) = Gen.F2C1.total_x_r2 o i ∧
     Gen.F2C1.total_R_r2 o i * o.sin (Gen.F2C1.total_phi_r2 o i) = Gen.F2C1.total_y_r2 o i := by
   obtain ⟨hx, hy, hρ⟩ := hpolar
+  have hcs : ∀ x, o.cos x ^ 2 + o.sin x ^ 2 = 1 := by
+    intro x; rw [hcos, hsin]; exact Real.cos_sq_add_sin_sq x
   have hR : Gen.F2C1.total_R_r2 o i = ρ := by
-    rw [Gen.F2C1.total_R_r2, hsqrt]; exact sqrt_polar hx hy hρ
+    rw [(one_point_is_position_r2 o i hcs).2.2.2.1, hsqrt]; exact sqrt_polar hx hy hρ
   rw [hR, hcos, hsin]
   exact ⟨hx.symm, hy.symm⟩
 
@@ -307,6 +347,7 @@ theorem toRZ_is_one_point_r3 (o : Ops K) (i : Gen.ToRZ.In K) :
 /-- order r1 end to end: if the interpolants built by `to_RZ` (`convert_to_spline(X_at_this_theta)` …) reproduce
 the shapes at `phi0`, the returned `(R, Z)` are the cylindrical radius and height of `r₀ + X(θ) n + Y(θ) b` -/
 theorem toRZ_position_r1 (o : Ops K) (i : Gen.ToRZ.In K)
+    (hcs : ∀ x, o.cos x ^ 2 + o.sin x ^ 2 = 1)
     (hX : o.spline "X_spline" i.phi0 = X_at_this_theta_r1 o i)
     (hY : o.spline "Y_spline" i.phi0 = Y_at_this_theta_r1 o i) :
     let S := fun nm => o.spline nm i.phi0
@@ -322,13 +363,18 @@ theorem toRZ_position_r1 (o : Ops K) (i : Gen.ToRZ.In K)
     Z_r1 o i = S "Z0_func" + X * S "normal_z_spline" + Y * S "binormal_z_spline" ∧
     phi_out_r1 o i = o.atan2 y x := by
   intro S c s X Y x y
-  have hX' : o.spline "X_spline" i.phi0 = X := hX
-  have hY' : o.spline "Y_spline" i.phi0 = Y := hY
-  simp only [R_r1, Z_r1, phi_out_r1, hX', hY']
-  refine ⟨?_, ?_, ?_⟩ <;> qsc_rfl [S, c, s, X, Y, x, y]
+  have hX' : o.spline "X_spline" i.phi0 = X := hX.trans (shape_at_theta_r1 o i).1
+  have hY' : o.spline "Y_spline" i.phi0 = Y := hY.trans (shape_at_theta_r1 o i).2.1
+  obtain ⟨hR, hZ, hphi⟩ := toRZ_is_one_point_r1 o i
+  have hpos := one_point_is_position_r1 o ⟨i.phi0⟩ hcs
+  simp only [hX', hY'] at hpos
+  obtain ⟨hx, hy, hz, hR', hphi'⟩ := hpos
+  rw [hR, hZ, hphi, hR', hphi', hx, hy, hz]
+  exact ⟨rfl, rfl, rfl⟩
 
 /-- order r3 end to end -/
 theorem toRZ_position_r3 (o : Ops K) (i : Gen.ToRZ.In K)
+    (hcs : ∀ x, o.cos x ^ 2 + o.sin x ^ 2 = 1)
     (hX : o.spline "X_spline" i.phi0 = X_at_this_theta_r3 o i)
     (hY : o.spline "Y_spline" i.phi0 = Y_at_this_theta_r3 o i)
     (hZ : o.spline "Z_spline" i.phi0 = Z_at_this_theta_r3 o i) :
@@ -348,11 +394,16 @@ theorem toRZ_position_r3 (o : Ops K) (i : Gen.ToRZ.In K)
     Z_r3 o i = S "Z0_func" + X * S "normal_z_spline" + Y * S "binormal_z_spline" + Z * S "tangent_z_spline" ∧
     phi_out_r3 o i = o.atan2 y x := by
   intro S c s X Y Z x y
-  simp only [R_r3, Z_r3, phi_out_r3, hX, hY, hZ]
-  refine ⟨?_, ?_, ?_⟩ <;> qsc_rfl [S, c, s, X, Y, x, y]
+  obtain ⟨hR, hZ', hphi⟩ := toRZ_is_one_point_r3 o i
+  have hpos := one_point_is_position_r2 o ⟨i.phi0⟩ hcs
+  simp only [hX, hY, hZ] at hpos
+  obtain ⟨hx, hy, hz, hR', hphi'⟩ := hpos
+  rw [hR, hZ', hphi, hR', hphi', hx, hy, hz]
+  exact ⟨rfl, rfl, rfl⟩
 
 /-- order r2 end to end -/
 theorem toRZ_position_r2 (o : Ops K) (i : Gen.ToRZ.In K)
+    (hcs : ∀ x, o.cos x ^ 2 + o.sin x ^ 2 = 1)
     (hX : o.spline "X_spline" i.phi0 = X_at_this_theta_r2 o i)
     (hY : o.spline "Y_spline" i.phi0 = Y_at_this_theta_r2 o i)
     (hZ : o.spline "Z_spline" i.phi0 = Z_at_this_theta_r2 o i) :
@@ -372,8 +423,12 @@ theorem toRZ_position_r2 (o : Ops K) (i : Gen.ToRZ.In K)
     Z_r2 o i = S "Z0_func" + X * S "normal_z_spline" + Y * S "binormal_z_spline" + Z * S "tangent_z_spline" ∧
     phi_out_r2 o i = o.atan2 y x := by
   intro S c s X Y Z x y
-  simp only [R_r2, Z_r2, phi_out_r2, hX, hY, hZ]
-  refine ⟨?_, ?_, ?_⟩ <;> qsc_rfl [S, c, s, X, Y, x, y]
+  obtain ⟨hR, hZ', hphi⟩ := toRZ_is_one_point_r2 o i
+  have hpos := one_point_is_position_r2 o ⟨i.phi0⟩ hcs
+  simp only [hX, hY, hZ] at hpos
+  obtain ⟨hx, hy, hz, hR', hphi'⟩ := hpos
+  rw [hR, hZ', hphi, hR', hphi', hx, hy, hz]
+  exact ⟨rfl, rfl, rfl⟩
 
 end Shapes
 
